@@ -45,3 +45,9 @@ chk("C14", "other",
     "Images <= 3x3, frames <= 4 pixels, labels 1..2; documented preconditions (sorted duplicate-free coordinates, no label 0 in coverlaps, 0 <= cut <= type max); to_dense (scipy.sparse) and the HDF5 round trip not covered; overlaps_linear/overlaps_matrix Python plumbing not executed (their kernels are).",
     "symbolic execution of LLVM IR (llsym) + z3 per-path validity queries; counterexample models replayed on the rebuilt kernels through ctypes", "DESIGN.md 3/C14", "llsym+pysym")
 del NA["C14"]
+
+chk("C20", "other",
+    "Checked-memory symbolic execution of (almost) every exported kernel from clang IR: exactly-sized objects as the f2py interface passes them, symbolic contents inside the documented preconditions, boundary shapes (2x2..3x2 images, sparse nnz 0..3 incl. first/last row and column and empty rows, 0..2 peaks/labels, nhist 1..3); every load/store is bounds-, lifetime- and initialisation-checked with z3 deciding symbolic offsets (modular integer arithmetic modelled); promised outputs must be fully written. Model events are confirmed with a generated C driver on the real sources under clang ASan+UBSan (valgrind for uninitialised use) before being reported.",
+    "Bounded shapes; real-arithmetic floats (float32 rounding and NaN/Inf inputs outside the model, so an index that only overflows through rounding is not seen); float-to-int range events reported separately; OpenMP regions with sequential semantics here (races in C07/C11/C13); splat not driven; allocation never fails.",
+    "symbolic execution of LLVM IR with a checked memory model (llsym) + z3; ASan/UBSan/valgrind replay of model events", "DESIGN.md 3/C20", "llsym")
+del NA["C20"]
